@@ -14,6 +14,7 @@ import UnifexModel.Driver.Entries.EStream
 import UnifexModel.Driver.Entries.Event
 import UnifexModel.Driver.Entries.Fused
 import UnifexModel.Driver.Entries.Io
+import UnifexModel.Driver.Entries.Loops
 import UnifexModel.Driver.Entries.Mutex
 import UnifexModel.Driver.Entries.Sched
 import UnifexModel.Driver.Entries.Scope
@@ -46,6 +47,7 @@ def table : List ModelEntries :=
   , Entries.remotequeue
   , Entries.epollop
   , Entries.twoctx
+  , Entries.loops
   , Entries.mutexv1
   , Entries.mutexv2
   , Entries.alist
